@@ -202,7 +202,11 @@ def _resolve(interp, text, args, arg_tys, dest_ty, rt0):
         chosen = None
         if rt0 is not None:
             rb = rt0.split('::')[-1] if not rt0.startswith('{') else rt0
+            if rb == 'tuple': rb = '()'
+            if rb == 'array': rb = '[]'
             byrt = [g for g in opts if impl_base(interp, g) == rb]
+            if not byrt:      # self type written through an imported alias: fall back to the receiver type in the MIR signature
+                byrt = [g for g in opts if g.params and base_of(interp, g.params[0][1]) == rb]
             if len(byrt) > 1:
                 byrt = sorted(byrt, key=lambda g: -affinity(rt0, g))
                 byrt = [g for g in byrt if affinity(rt0, g) == affinity(rt0, byrt[0])]
@@ -215,16 +219,24 @@ def _resolve(interp, text, args, arg_tys, dest_ty, rt0):
         if chosen is None:
             # blanket impls (`impl<T> Trait for T`)
             blanket = [g for g in opts if prog.impl_of[g.key]['self_ty'] in prog.impl_of[g.key]['generics']]
-            if blanket and not is_std_type(X, rt0): chosen = blanket
+            if blanket: chosen = blanket
         if chosen:
             return pick(interp, chosen, info, args, arg_tys, dest_ty, X, text)
     # trait provided (default) method with a MIR body
     prov = [g for g in cands if '<impl at' not in g.name and '{closure' not in g.name
             and re.search(r'(^|::)' + re.escape(tname) + '::' + re.escape(method) + '$', strip_generics(g.name))]
     if len(prov) == 1 and not has_std_model(interp, tname, method, args):
+        xt = parse_ty(X)
+        x_generic = X.startswith('impl ') or X == 'Self' or (xt[0] == 'path' and '::' not in xt[2] and not xt[3] and len(xt[1]) <= 2) or xt[0] == 'opaque'
         selfty = X
+        if x_generic and rt0 and rt0 not in ('String', 'str', 'Vec', 'HashSet', 'Box', '[]'):
+            selfty = '(String, String)' if rt0 == 'tuple' and args and tuple_of_strings(args[0]) else rt0
         return ('mir', prov[0], bind_generics(interp, prov[0], info, arg_tys, dest_ty, selfty)[0])
     return find_model(interp, info, text)
+
+def tuple_of_strings(v):
+    while isinstance(v, Ref): v = v.get()
+    return isinstance(v, Agg) and v.ty == 'tuple' and all(isinstance(x, RString) for x in v.f)
 
 def is_std_type(X, rt0):
     return rt0 in ('String', 'str', 'Vec', 'HashSet', 'Box', '[]')
@@ -232,9 +244,56 @@ def is_std_type(X, rt0):
 def has_std_model(interp, tname, method, args):
     return False
 
+def rt_matches(interp, v, t, src_file=None, depth=0):
+    """can runtime value v have (source/MIR) type tree t?  unknown => True"""
+    if depth > 4: return True
+    if t[0] in ('ref', 'ptr'):
+        if isinstance(v, Ref): return rt_matches(interp, v.get(), t[2], src_file, depth + 1)
+        if isinstance(v, (Str, SliceRef)): return rt_matches(interp, v, t[2], src_file, depth + 1)
+        if isinstance(v, (RString, RVec, RSet, RBox, Agg, Enum, int, float)): return False
+        return True
+    if t[0] == 'tuple':
+        if isinstance(v, Agg) and v.ty == 'tuple':
+            return len(v.f) == len(t[1]) and all(rt_matches(interp, x, y, src_file, depth + 1) for x, y in zip(v.f, t[1]))
+        return v is UNIT and not t[1] if (v is UNIT or not t[1]) else False
+    if t[0] == 'path':
+        name = t[1]
+        if src_file is not None:
+            al = interp.prog.si.alias_for(name, src_file)
+            if al is not None: return rt_matches(interp, v, parse_ty(al), src_file, depth + 1)
+        if name == 'String': return isinstance(v, RString)
+        if name == 'str': return isinstance(v, Str)
+        if name == 'Vec': return isinstance(v, RVec)
+        if name == 'HashSet': return isinstance(v, RSet)
+        if name == 'Box': return isinstance(v, RBox)
+        if name in ('usize', 'isize', 'u64', 'i64', 'u32', 'i32', 'u8', 'char'): return isinstance(v, int) and not isinstance(v, bool) or is_sym(v)
+        if name in ('f64', 'f32'): return isinstance(v, float) or is_sym(v) or isinstance(v, SymReal)
+        if name == 'bool': return isinstance(v, bool) or is_sym(v)
+        if isinstance(v, (Agg, Enum)) and name[:1].isupper() and len(name) > 1:
+            if v.ty in ('tuple', 'array'): return False
+            return v.ty.split('::')[-1] == name or name in ('Self',)
+    return True
+
 def pick(interp, opts, info, args, arg_tys, dest_ty, qual, text):
     if len(opts) > 1:
         scored = []
+        rt_ok = []
+        for g in opts:
+            imp = interp.prog.impl_of.get(g.key)
+            ok2 = True
+            if len(g.params) == len(args):
+                variables = set(interp.prog.generics_of.get(g.key, []))
+                for (idx, pty), v in zip(g.params, args):
+                    pt = parse_ty(pty)
+                    if pt[0] == 'path' and pt[2] in variables: continue
+                    if not rt_matches(interp, v, pt, None): ok2 = False
+                if imp is not None and imp.get('self_ty') and args and not imp['self_ty'].startswith('$'):
+                    pass
+            rt_ok.append(ok2)
+        if any(rt_ok) and not all(rt_ok):
+            opts = [g for g, k in zip(opts, rt_ok) if k]
+            if len(opts) == 1:
+                return ('mir', opts[0], bind_generics(interp, opts[0], info, arg_tys, dest_ty, info.get('self_ty'))[0])
         for g in opts:
             b, ok = bind_generics(interp, g, info, arg_tys, dest_ty)
             scored.append((ok, affinity(qual, g), -len(g.params) if len(g.params) != len(args) else 0, g, b))
